@@ -75,26 +75,6 @@ class OpRun:
         self.rids = []  # rec ids an open would create
 
 
-def op_links(op):
-    """Set of links an op touches (recs resolved by the caller for close/abort/drain)."""
-    if op[0] == 'par':
-        s = set()
-        for o in op[1:]:
-            s |= op_links(o)
-        return s
-    if op[0] in ('open', 'refused'):
-        return {op[2]}
-    return set()
-
-
-def n_records(op):
-    if op[0] == 'par':
-        return sum(n_records(o) for o in op[1:])
-    if op[0] == 'open':
-        return op[4] if op[1] == 'ec' else 1
-    return 0
-
-
 class Bed:
     def __init__(self, links=1, seed=0):
         self.nlinks = links
@@ -278,8 +258,6 @@ class Bed:
                 started += self._start(o, par)
         else:
             started = self._start(op)
-            if not started and op[0] == 'open':
-                pass
         if started:
             loop.run_until(lambda: all(r.task.done() for r in started), horizon=loop.time() + horizon, max_steps=100000)
         loop.run_quiescent(max_steps=100000)
@@ -367,12 +345,7 @@ class Bed:
                 self.add_violation('open_failed', sig, f'{r.op} raised {val} ({self._ctx()}){" — responder still holds a table entry of closed channel " + str(blk) if blk else ""}')
             if status == 'ok' and len(chans) != len(r.rids):
                 self.add_violation('open_count', {'kind': r.op[1]}, f'{r.op}: {len(chans)} channels returned, {len(r.rids)} requested')
-            # server-side channels nobody claimed: the server believes they are open
-            if status != 'pending':
-                for s in new_in:
-                    if not getattr(s, '_c09_claimed', False):
-                        # may belong to a concurrent open by the same initiator; claimed later or orphan
-                        pass
+            # server-side channels nobody claims become server-only records in collect_orphans()
         elif k == 'refused':
             if status == 'ok':
                 self.add_violation('refused_open_succeeded', {'kind': r.op[1]}, f'{r.op}: open towards an unserved PSM returned a channel')
@@ -393,12 +366,11 @@ class Bed:
                 pass
             elif status == 'error':
                 self.add_violation('close_failed', {'kind': rec.kind, 'role': self._role(r), 'error': val, 'when': self._when(r)}, f'{r.op} raised {val} ({self._ctx()})')
-            if status != 'pending' or True:
-                for s, h in rec.halves.items():
-                    if h.open:
-                        h.open = False
-                        h.closed_by = 'close'
-                self.closed_any[L] = True
+            for s, h in rec.halves.items():
+                if h.open:
+                    h.open = False
+                    h.closed_by = 'close'
+            self.closed_any[L] = True
         elif k == 'abort':
             rec = r.rec
             if status == 'error' and not cut_here:
